@@ -135,6 +135,10 @@ func (f *FileOutputHandler) Load(
 		reader = progress.WrapReader(contentReader)
 	}
 
+	// The directory of the output may have been removed since the output was cached
+	if err := os.MkdirAll(filepath.Dir(absOutputPath), 0755); err != nil {
+		return err
+	}
 	verifhook.Point("file.load.create", absOutputPath)
 	outputFile, err := os.Create(absOutputPath)
 	if err != nil {
